@@ -23,6 +23,7 @@ pub mod responder;
 mod rpc_errors;
 pub mod tls;
 mod tx_index;
+pub mod vsync;
 pub mod watcher;
 
 /// Verification hook (H4): re-exports crate-private items to the external verification harness.
